@@ -999,7 +999,9 @@ class TestClientRecorder(BaseOperationRecorder):
         if isinstance(obj, bytes):
             return obj.decode("utf-8")
         if isinstance(obj, str):
-            return obj
+            # Subclasses of str (e.g. Char16) cannot be represented by the
+            # YAML dumper, so they are converted to str.
+            return str(obj)
         if isinstance(obj, bool):
             # The check for bool must be before any integer checks, because
             # bool is a subclass of int in Python.
